@@ -29,7 +29,13 @@ Check(t, op, x, y, z, k) ==
 UnaryLemma   == \A t \in Types, op \in Unary, x \in Vec(N1) : Check(t, op, x, <<>>, <<>>, <<>>)
 ScalarLemma  == \A t \in Types, op \in WithScalar, x \in Vec(N1), s \in Vals : Check(t, op, x, <<>>, <<>>, <<s>>)
 RepLemma     == \A x \in Vec(N1), n \in 0..3 : Check("int", "Rep", x, <<>>, <<>>, <<n>>)
-SeqLemma     == \A f, g \in -6..6, b \in 1..4 : Check("int", "Seq", <<>>, <<>>, <<>>, <<f, g, b>>)
+SeqLemma     == /\ \A t \in Types, f, g \in -6..6, b \in 1..4 : Check(t, "Seq", <<>>, <<>>, <<>>, <<f, g, b>>)
+                \* large steps: spans that are / are not multiples of the step, just short of one, inside the 1% zone
+                /\ \A t \in Types, f \in {0, -300, 17}, b \in {49, 50, 51, 99, 100, 101, 128, 200, 250, 1000}, m \in 0..4, d \in {1, -1} :
+                      \A e \in {0, 1, 2, b \div 2, b - 2, b - 1} :
+                         Check(t, "Seq", <<>>, <<>>, <<>>, <<f, f + d * (m * b + e), b>>)
+ElemLemma    == \A t \in Types, op \in {"AddEqE", "SubEqE", "MulEqE", "DivEqE"}, x \in Vec(N1), i \in 0..(N1 - 1) :
+                   Check(t, op, x, <<>>, <<>>, <<i>>)
 BinaryLemma  == \A t \in Types, op \in Binary, x, y \in Vec(N2) : Check(t, op, x, y, <<>>, <<>>)
 TernaryLemma == \A op \in Ternary, x, y, z \in Vec(N3) : Check("int", op, x, y, z, <<>>)
 WeightedLemma == /\ \A x, a \in Vec(N2), nz, pre \in 0..1 : Check("double", "MeanW", x, a, <<>>, <<nz, pre>>)
@@ -61,6 +67,15 @@ RefuseLemma ==
   /\ J("int", "Order", <<2, 1, 1>>, <<>>, <<>>, <<>>, "ok", "", <<1, 2, 0>>, <<2, 1, 1>>, <<>>, <<>>)
   /\ ~J("int", "Seq", <<>>, <<>>, <<>>, <<5, 1, 1>>, "ok", "", <<1, 0, -1, -2, -3>>, <<>>, <<>>, <<>>)
   /\ J("int", "Seq", <<>>, <<>>, <<>>, <<5, 1, 2>>, "ok", "", <<5, 3, 1>>, <<>>, <<>>, <<>>)
+  \* large steps: nothing beyond `to` for integers, at most a hundredth of a step for reals
+  /\ ~J("int", "Seq", <<>>, <<>>, <<>>, <<0, 99, 100>>, "ok", "", <<0, 100>>, <<>>, <<>>, <<>>)
+  /\ J("double", "Seq", <<>>, <<>>, <<>>, <<0, 99, 100>>, "ok", "", <<0, 100>>, <<>>, <<>>, <<>>)
+  /\ J("double", "Seq", <<>>, <<>>, <<>>, <<0, 99, 100>>, "ok", "", <<0>>, <<>>, <<>>, <<>>)
+  /\ ~J("double", "Seq", <<>>, <<>>, <<>>, <<0, 1000, 200>>, "ok", "", <<0, 200, 400, 600, 800, 1000, 1200, 1400>>, <<>>, <<>>, <<>>)
+  /\ ~J("double", "Seq", <<>>, <<>>, <<>>, <<0, 95, 50>>, "ok", "", <<0, 50, 100>>, <<>>, <<>>, <<>>)
+  \* v -= v[0] on (2, 5): (0, 3), not (0, 5)
+  /\ J("int", "SubEqE", <<2, 5>>, <<>>, <<>>, <<0>>, "ok", "", 0, <<0, 3>>, <<>>, <<>>)
+  /\ ~J("int", "SubEqE", <<2, 5>>, <<>>, <<>>, <<0>>, "ok", "", 0, <<0, 5>>, <<>>, <<>>)
   /\ ~J("int", "Diff", <<2, 1>>, <<>>, <<7>>, <<>>, "ok", "", 0, <<1, 2>>, <<>>, <<7, 2, 1>>)
   /\ J("int", "Diff", <<2, 1>>, <<>>, <<7>>, <<>>, "ok", "", 0, <<1, 2>>, <<>>, <<7, 1, 2>>)
   /\ ~J("int", "Union", <<1, 1>>, <<>>, <<>>, <<>>, "ok", "", <<1, 1>>, <<1, 1>>, <<>>, <<>>)
@@ -80,6 +95,7 @@ RefuseLemma ==
 
 ASSUME LET v == UnaryLemma IN PrintT(<<"Lemma", "Unary", v>>) /\ v
 ASSUME LET v == ScalarLemma IN PrintT(<<"Lemma", "Scalar", v>>) /\ v
+ASSUME LET v == ElemLemma IN PrintT(<<"Lemma", "ElementScalar", v>>) /\ v
 ASSUME LET v == RepLemma /\ SeqLemma IN PrintT(<<"Lemma", "RepSeq", v>>) /\ v
 ASSUME LET v == BinaryLemma IN PrintT(<<"Lemma", "Binary", v>>) /\ v
 ASSUME LET v == TernaryLemma IN PrintT(<<"Lemma", "Ternary", v>>) /\ v
